@@ -57,3 +57,7 @@ Definition wfin_b (w : list itask) : bool :=
           (seq 0 (length w)).
 
 Definition WFin (w : list itask) : Prop := wfin_b w = true.
+
+(* members are numbered before the tasks outside the WBS (the observation lists index tasks by number) *)
+Definition members_first_b (w : list itask) : bool :=
+  list_eqb Nat.eqb (members w) (seq 0 (length (members w))).
